@@ -25,16 +25,20 @@ Section Preserve.
   Hypothesis P_single : forall p n i, P p -> P (single_set p n i).
   Hypothesis P_tsingle : forall p i, P p -> P (track_single p i).
 
+  Lemma P_store life p h n i : P p -> P (store life p h n i).
+  Proof. intros H. unfold store. destruct life; auto. Qed.
+  Lemma P_share life p h n i : P p -> P (share life p h n i).
+  Proof. intros H. unfold share. destruct life; auto. Qed.
   Lemma P_set_instance p h d i : P p -> P (set_instance p h d i).
-  Proof. intros H. unfold set_instance. destruct (ds_life d); auto. Qed.
+  Proof. apply P_store. Qed.
   Lemma P_share_instance p h d i : P p -> P (share_instance p h d i).
-  Proof. intros H. unfold share_instance. destruct (ds_life d); auto. Qed.
-  Lemma P_share_all l : forall p h i, P p -> P (fold_left (fun p a => share_instance p h a i) l p).
-  Proof. induction l as [|a l IH]; intros p h i H; cbn [fold_left]; auto using P_share_instance. Qed.
+  Proof. apply P_share. Qed.
+  Lemma P_share_all life l : forall p h i, P p -> P (fold_left (fun p a => share life p h (ds_ident a) i) l p).
+  Proof. induction l as [|a l IH]; intros p h i H; cbn [fold_left]; auto using P_share. Qed.
   Lemma P_fan_out ks : forall p h d inv, P p -> P (fan_out p h d inv ks).
   Proof.
     induction ks as [|k rest IH]; intros p h d inv H; cbn [fan_out]; [exact H|].
-    destruct (output_desc (p_descs p) d k); [apply IH; apply P_set_instance; exact H|].
+    destruct (output_desc (p_descs p) d k); [destruct (out_is_nil (ds_reg d) k && life_eqb (ds_life d) Singleton); apply IH; [exact H|apply P_store; exact H]|].
     apply IH. unfold drop_output. destruct (ds_life d); auto.
   Qed.
 
@@ -121,10 +125,10 @@ Section Preserve.
     pose proof (create_top_preserves rs h d H) as H1.
     destruct (create_top rs h d) as [rs1 [a|e|]]; cbn [fst] in *; [apply IH| |]; exact H1.
   Qed.
-  Lemma create_singletons_preserves ds : forall rs, Prs rs -> Prs (fst (create_singletons rs ds)).
+  Lemma create_singletons_preserves ds : forall rs att, Prs rs -> Prs (fst (fst (create_singletons rs att ds))).
   Proof.
-    induction ds as [|d ds IH]; intros rs H; cbn [create_singletons]; [exact H|].
-    destruct (singleton_pending (rs_p rs) d); [|apply IH; exact H].
+    induction ds as [|d ds IH]; intros rs att H; cbn [create_singletons]; [exact H|].
+    destruct (singleton_pending (rs_p rs) d && negb (attempted att d)); [|apply IH; exact H].
     destruct (build_cancelled rs); [exact H|].
     pose proof (create_top_preserves rs 0 d H) as H1.
     destruct (create_top rs 0 d) as [rs1 [a|e|]]; cbn [fst] in *; [apply IH| |]; exact H1.
@@ -136,7 +140,7 @@ Theorem resolve_singleton_pure fuel rs h d :
   ds_life d = Singleton ->
   resolve_d (S fuel) rs h d =
   (rs, match lookup_i (p_single (rs_p rs)) (ds_ident d) with
-       | Some i => ROkV (AInst i)
+       | Some i => ROkV (aval_of i)
        | None => RFail ESingletonNotInit
        end).
 Proof. intros H. cbn [resolve_d]. rewrite H. destruct (lookup_i _ _); reflexivity. Qed.
@@ -149,7 +153,7 @@ Proof. intros H. rewrite !resolve_singleton_pure by exact H. reflexivity. Qed.
 (* ------------------------------------------------------------------ C02: a cached scoped instance is what every later resolution in that scope returns *)
 Theorem resolve_scoped_cached fuel rs h d i :
   ds_life d = Scoped -> lookup_i (sc_cache (get_scope (rs_p rs) h)) (ds_ident d) = Some i ->
-  resolve_d (S fuel) rs h d = (rs, ROkV (AInst i)).
+  resolve_d (S fuel) rs h d = (rs, ROkV (aval_of i)).
 Proof. intros H Hc. cbn [resolve_d]. rewrite H, Hc. reflexivity. Qed.
 
 (* ------------------------------------------------------------------ scopes: structure preserved by resolution *)
